@@ -93,6 +93,10 @@ def units(tier, seed):
             for sk in ("simple", "nbc"):
                 descs.append(dict(engines=list(eng), gens=gens, obj=("sphere_in", "twofunnel", "plateau")[k % 3], Mh=3, seed=s, sprout={"kind": sk, "L": 2}, observing_gsc=bool(k % 2),
                                   maximize=bool(k % 2), pmut=(1.0, 0.5)[k % 2], hib=bool(k % 5 == 0)))
+    # evaluation budgets: the global condition becomes true in the middle of a metaepoch of several generations
+    for k3, eng in enumerate(shapes_h1() + shapes_h2()[::3]):
+        for n in (17, 29, 44):
+            descs.append(dict(engines=list(eng), gens=3, obj="sphere_in", Mh=5, seed=s, sprout={"kind": "simple", "L": 2}, gsc={"kind": "evals", "n": n + k3 % 5}, maximize=bool(k3 % 2)))
     # objective undefined (NaN) on part of the box
     for k2, eng in enumerate([e for e in shapes_h1() + shapes_h2() if not any(v.startswith("CMA") or v == "LOC" for v in e)][::2]):
         descs.append(dict(engines=list(eng), gens=2 + k2 % 2, obj=("nanhalf", "nanhole")[k2 % 2], Mh=3, seed=s + k2 % 3, sprout={"kind": "simple", "L": 2}, maximize=bool(k2 % 2), pop=(6, 10)[k2 % 2]))
